@@ -172,6 +172,9 @@ def plan_jobs(tier):
         for b in triples[:3]:
             jobs.append(Job(b, 3, 2, 1, chunk=12))
     jobs.sort(key=lambda j: (-(j.gran * 10 + (0 if j.K else 5)), 0))
+    if vlib.SEED:      # VERIF_SEED only permutes the order in which the systems are walked (matters only when the deadline cuts the run)
+        import random
+        random.Random(vlib.SEED).shuffle(jobs)
     only = os.environ.get('C18_ONLY')      # debugging aid: regular expression selecting systems by name (evidence then says exhaustive:false)
     if only:
         jobs = [j for j in jobs if re.search(only, j.name())]
